@@ -659,3 +659,75 @@ func TestC20_GsxCancelUnconfirmed(t *testing.T) {
 		}
 	})
 }
+
+// TestC20_GsxOpenRefused: the events handler refuses a channel in the outgoing-request
+// hook (OnChannelOpened fails - the channel was ended meanwhile, or the manager is
+// stopping). The hook runs while OpenChannel holds the channel; the call must return
+// an error, the transport must stay usable and the refused request must be silent.
+func TestC20_GsxOpenRefused(t *testing.T) {
+	sp := stats.For("C20")
+	rapid.Check(t, func(t *rapid.T) {
+		r := newGsRig(t)
+		m := &gsModel{t: t, r: r, owner: map[graphsync.RequestID]*gch{}}
+		defer func() {
+			for _, id := range m.allReqs {
+				r.gs.Complete(id, nil)
+			}
+		}()
+		role := rapid.SampledFrom([]string{"createPull", "receivePush"}).Draw(t, "role")
+		c := &gch{role: role, other: gen.Peer(1), tid: 40}
+		c.chid = chidFor(r.self, role, c.other, c.tid)
+		m.chans = []*gch{c}
+		restart := rapid.Bool().Draw(t, "afterAnEarlierOpen")
+		if restart {
+			m.opOpen(c, 0)
+		}
+		withStore := rapid.Bool().Draw(t, "store")
+		if withStore {
+			_ = r.tr.UseStore(c.chid, cidLinkSystem())
+		}
+		r.ev.SetResult("opened", errors.New("channel was ended"))
+		m.logf("OpenChannel(%s) restart=%v store=%v while the handler refuses the channel", chidStr(c.chid), restart, withStore)
+		g0 := r.gs.Len()
+		var err error
+		var st datatransfer.ChannelState
+		if restart {
+			st = stubState{chid: c.chid, received: 1}
+		}
+		ok := within(func() {
+			err = r.tr.OpenChannel(bg(), c.other, c.chid, linkOf(simpleCid(1)), strNode("sel"), st, c.openMsg(restart))
+		})
+		if !ok {
+			m.fail("C20/open-blocked-by-refusing-handler", "OpenChannel did not return within %s: the outgoing-request hook, refused by the handler, cleans the channel up while the open call that waits for the hook holds the channel", watchdog)
+		}
+		if err == nil {
+			m.fail("C16/refused-open-succeeded", "OpenChannel returned nil although the handler refused the channel")
+		}
+		r.ev.SetResult("opened", nil)
+		// the transport stays usable and the refused request is silent
+		if !within(func() { _ = r.tr.PauseChannel(bg(), c.chid); r.tr.CleanupChannel(c.chid) }) {
+			m.fail("C20/transport-wedged", "transport calls block after a refused open")
+		}
+		var rid *graphsync.RequestID
+		for _, call := range r.gs.Since(g0) {
+			if call.Kind == "request" {
+				id := call.ID
+				rid = &id
+			}
+		}
+		if rid != nil {
+			e0 := r.ev.Len()
+			r.gs.IncomingBlockHook(c.other, &dbl.RespData{RID: *rid}, &dbl.BlkData{L: linkOf(simpleCid(2)), Size: 10, OnWire: 10, Idx: 1}, &dbl.InBlockActions{})
+			if r.ev.Len() != e0 {
+				m.fail("C16/event-after-cleanup", "a block of the refused request was reported to the handler")
+			}
+			m.allReqs = append(m.allReqs, *rid)
+		}
+		if len(r.gs.Stores()) != 0 {
+			m.fail("C16/store-left-registered", "the channel's store is still registered after the refused open: %v", r.gs.Stores())
+		}
+		sp.Eval()
+		sp.Nontrivial(stats.FP("open-refused", role, restart, withStore))
+		sp.Class("gsx_open_refused_by_handler")
+	})
+}
